@@ -148,7 +148,7 @@ func TestCheck(t *testing.T) {
 	defer r.Finish()
 	r.SetRule("generator draws ClientHelloInner first (3..30 extensions incl. SNI, ALPN, supported_versions, key_share up to 1.2 KB, GREASE/unknown types, inner ECH at any position), " +
 		"then ClientHelloOuter (own random, session id 0..32, public-name SNI, ECH at any position), compresses a contiguous run via ech_outer_extensions, pads, seals with an independent RFC 9180 sender; " +
-		"sub-space 'runs' enumerates every (run start, run length) for inner lists of <=7 extensions. distinct = distinct (#inner exts, run start, run len, pad class, session-id length, AEAD, ECH position class) among ACCEPTED offers")
+		"sub-space 'runs' enumerates every (run start, run length) for inner lists of <=7 extensions; 'large' steers the outer record up to exactly 16384 bytes; 'boundary' builds inner hellos of 16383..40000 bytes (exact multiples of 16384 included) whose outer hello the client fragments. distinct = distinct (#inner exts, run start, run len, pad class, session-id length, AEAD, ECH position class) among ACCEPTED offers")
 	r.Assume("independent HPKE sender validated against RFC 9180 vectors; generator validated against a plain crypto/tls ECH server (self-check at start of every run)",
 		"expected bytes are the generator's own ClientHelloInner with legacy_session_id := outer.session_id; the reconstruction is never re-implemented")
 
